@@ -200,9 +200,9 @@ def _step(n: int, m: int, flavour: str, N: int, K: int, new_avail: bool,
     for c in L0:
         if not c.is_closed() and c.has_expired():
             P.check(not any(c is x for x in L1), "expired-never-kept", "step:expired-kept", prop="C09")
-    # (entries that report idle are counted the way the pool can see them:
-    # a failed connection attempt that is still listed reports idle too)
-    I0 = len([c for c in L0 if c.is_idle()])
+    # (only connections that survive the pass count towards the limit: a closed or expired entry that is dropped in
+    # this very pass cannot be the reason for closing a healthy idle connection)
+    I0 = len([c for c in L0 if c.is_idle() and not c.is_closed() and not c.has_expired()])
     surplus_allowed = I0 - K_eff if I0 > K_eff else 0
     for c in closing:
         if not c.has_expired() and not c.is_idle():
@@ -284,14 +284,16 @@ def _fl(shards: list[dict], flavour: str) -> list[dict]:
 # Quick tier: both variants on the small shapes, the larger shapes on one
 # variant only (the function is the same text in both modules: C18 pairing
 # check); the thorough tier runs every shape on both.
+# (3, 0): the clean-up pass alone over three pooled connections (no request in the queue)
+_Q30 = [{"n": 3, "m": 0, "flavour": fl, "_pre": "new_avail == False"} for fl in ("async", "sync")]
 _Q_SMALL = _sh(((2, 1), (1, 2)))
 _Q22A, _Q22S = _fl(_sh(((2, 2),)), "async"), _fl(_sh(((2, 2),)), "sync")
 
 
 @harness(
     "C04", "poolstep",
-    quick=_Q_SMALL + _Q22A + _fl(_sh(((1, 3),)), "sync"),
-    thorough=_sh(((2, 1), (1, 2), (2, 2), (1, 3))) + _deep(((3, 1),))
+    quick=_Q_SMALL + _Q22A + _fl(_sh(((1, 3),)), "sync") + _Q30[:1],
+    thorough=_sh(((2, 1), (1, 2), (2, 2), (1, 3))) + _Q30 + _deep(((3, 1),))
     + [s for s in _deep(((3, 2),)) if s["flavour"] == "async" and "new_avail == False" in s["_pre"]],
     per_prop={
         # the deep shapes (3,1)/(3,2) are explored under C04 only; the other
@@ -299,7 +301,7 @@ _Q22A, _Q22S = _fl(_sh(((2, 2),)), "async"), _fl(_sh(((2, 2),)), "sync")
         "C01": {"quick": _Q_SMALL, "thorough": _sh(((2, 1), (1, 2), (2, 2), (1, 3)))},
         "C10": {"quick": _Q_SMALL, "thorough": _sh(((2, 1), (1, 2), (2, 2), (1, 3)))},
         "C07": {"quick": _Q_SMALL + _Q22A + _fl(_sh(((1, 3),)), "sync"), "thorough": _sh(((2, 1), (1, 2), (2, 2), (1, 3))) + _deep(((3, 1),))[::5]},
-        "C09": {"quick": _Q_SMALL + _Q22S, "thorough": _sh(((2, 1), (1, 2), (2, 2), (1, 3))) + _deep(((3, 1),))[::5]},
+        "C09": {"quick": _Q_SMALL + _Q22S + _Q30, "thorough": _sh(((2, 1), (1, 2), (2, 2), (1, 3))) + _Q30 + _deep(((3, 1),))[::5]},
         # C08(c): atomic-step invariants of the step as the sync pool runs it (under its lock)
         "C08": {"quick": _fl(_sh(((1, 2), (2, 2))), "sync"),
                 "thorough": [s for s in _sh(((2, 2), (1, 3))) + _deep(((3, 1),))[::3] if s["flavour"] == "sync"]},
